@@ -1,6 +1,6 @@
 /-
   C20, second half — intrusive reference counting (`IntrusiveSharedPtr` / `RefCountable`, model in Model/ValueStore.lean `RC`):
-  after ANY sequence of creating an object into a pointer, assigning one pointer to another (also to itself) and resetting,
+  after ANY sequence of creating an object into a pointer, assigning one pointer to another (also to itself), swapping two pointers and resetting,
     * the reference count of every object equals the number of pointers that refer to it (`C20_refcount_exact`),
     * an object is destroyed exactly when no pointer refers to it any more (`C20_freed_iff_unreferenced`),
     * and never twice (`C20_freed_once`).
@@ -12,13 +12,14 @@ namespace PotasscoVerif.C20rc
 open PotasscoVerif.ValueStore
 
 inductive RCOp where
-  | fresh (i : Nat) | assign (i j : Nat) | reset (i : Nat)
+  | fresh (i : Nat) | assign (i j : Nat) | reset (i : Nat) | swap (i j : Nat)
 deriving Repr, DecidableEq
 
 def RC.step (r : RC) : RCOp → RC
   | .fresh i => r.fresh i
   | .assign i j => r.assign i j
   | .reset i => r.reset i
+  | .swap i j => r.swap i j
 
 def RC.init (n : Nat) : RC := { ptrs := List.replicate n none, counts := [] }
 
@@ -330,6 +331,49 @@ theorem fresh_inv (r : RC) (i : Nat) (h : Inv r) : Inv (r.fresh i) := by
       simp [hx, hx']
   · exact h
 
+/-- exchanging two cells of a list changes no count -/
+theorem count_swap (l : List (Option Nat)) (i j : Nat) (hi : i < l.length) (hj : j < l.length) (x : Option Nat) :
+    ((l.set i (l[j]?).join).set j (l[i]?).join).count x = l.count x := by
+  have ei : (l[i]?).join = l[i] := by simp [List.getElem?_eq_getElem hi]
+  have ej : (l[j]?).join = l[j] := by simp [List.getElem?_eq_getElem hj]
+  rw [ei, ej]
+  have hj' : j < (l.set i l[j]).length := by simpa using hj
+  rw [List.count_set hj', List.count_set hi]
+  by_cases hij : i = j
+  · subst hij
+    simp only [List.getElem_set_self]
+    have : 0 < l.count l[i] := List.count_pos_iff.mpr (List.getElem_mem hi)
+    by_cases h : l[i] = x
+    · subst h; simp <;> omega
+    · have h' : (l[i] == x) = false := by simpa using h
+      simp [h']
+  · rw [List.getElem_set_ne hij]
+    have pi : 0 < l.count l[i] := List.count_pos_iff.mpr (List.getElem_mem hi)
+    have pj : 0 < l.count l[j] := List.count_pos_iff.mpr (List.getElem_mem hj)
+    by_cases h1 : l[i] = x <;> by_cases h2 : l[j] = x
+    · have e1 : (l[i] == x) = true := by simpa using h1
+      have e2 : (l[j] == x) = true := by simpa using h2
+      simp only [e1, e2, ↓reduceIte]; rw [← h1] at *; omega
+    · have e1 : (l[i] == x) = true := by simpa using h1
+      have e2 : (l[j] == x) = false := by simpa using h2
+      simp only [e1, e2, ↓reduceIte, Bool.false_eq_true]; rw [← h1] at *; omega
+    · have e1 : (l[i] == x) = false := by simpa using h1
+      have e2 : (l[j] == x) = true := by simpa using h2
+      simp only [e1, e2, ↓reduceIte, Bool.false_eq_true]; rw [← h2] at *; omega
+    · have e1 : (l[i] == x) = false := by simpa using h1
+      have e2 : (l[j] == x) = false := by simpa using h2
+      simp only [e1, e2, ↓reduceIte, Bool.false_eq_true]; omega
+
+theorem swap_inv (r : RC) (i j : Nat) (h : Inv r) : Inv (r.swap i j) := by
+  unfold RC.swap
+  split
+  · rename_i hij
+    have ho : ∀ o, occ ({ r with ptrs := (r.ptrs.set i (r.ptrs[j]?).join).set j (r.ptrs[i]?).join } : RC) o = occ r o :=
+      fun o => count_swap r.ptrs i j hij.1 hij.2 (some o)
+    exact ⟨fun o => by rw [ho]; exact h.exact o, h.nz, h.nodup, fun o hm => by rw [ho]; exact h.freedDead o hm,
+      fun o h1 h2 h0 => h.deadFreed o h1 h2 (by rw [← ho]; exact h0), fun o hb => by rw [ho]; exact h.bound o hb, by rw [ho]; exact h.zero, h.pos⟩
+  · exact h
+
 theorem init_inv (n : Nat) : Inv (RC.init n) := by
   have ho : ∀ x, occ (RC.init n) x = 0 := by
     intro x; unfold occ RC.init
@@ -345,6 +389,7 @@ theorem step_inv (r : RC) (op : RCOp) (h : Inv r) : Inv (RC.step r op) := by
   | fresh i => exact fresh_inv r i h
   | assign i j => exact assign_inv r i j h
   | reset i => exact reset_inv r i h
+  | swap i j => exact swap_inv r i j h
 
 theorem run_inv (n : Nat) (ops : List RCOp) : Inv (ops.foldl RC.step (RC.init n)) := by
   suffices ∀ r, Inv r → Inv (ops.foldl RC.step r) from this _ (init_inv n)
@@ -383,5 +428,8 @@ theorem C20_pointers_valid (n : Nat) (ops : List RCOp) (o : Nat) (h : some o ∈
 /-! non-vacuity: a history with self-assignment, overwriting the last reference, and reset -/
 example : let r := [RCOp.fresh 0, .assign 0 1, .assign 1 1, .fresh 0, .reset 1, .assign 2 0].foldl RC.step (RC.init 4)
     r.ptrs = [none, none, none, none] ∧ r.freed = [1, 2] ∧ r.counts = [] := by decide
+
+example : let r := [RCOp.fresh 0, .fresh 1, .assign 0 2, .swap 0 1, .swap 2 2, .reset 1].foldl RC.step (RC.init 4)
+    r.ptrs = [some 2, none, some 1, none] ∧ r.freed = [] ∧ r.counts = [(2, 1), (1, 1)] := by decide
 
 end PotasscoVerif.C20rc
